@@ -18,6 +18,7 @@
 package query
 
 import (
+	"fmt"
 	"sync"
 	"time"
 
@@ -111,7 +112,16 @@ func (sm *pipelineStateMachine) completeStage(stageID string, err error) {
 		s.stats.ErrMsg = errMsg
 		s.stats.Async = s.stage.IsAsync()
 
-		s.stage.Complete()
+		// a panic while the stage completes is a failure of that stage: it must neither leave the mutex locked
+		// nor skip the pending counter below.
+		if completeErr := completeStageSafely(s.stage); completeErr != nil {
+			if err == nil {
+				err = completeErr
+			}
+			s.state = trackerpkg.ErrorState
+			s.stats.State = s.state.String()
+			s.stats.ErrMsg = err.Error()
+		}
 	}
 	// NOTE: must keep the error of failure stage, the last completed stage maybe execute successfully.
 	if err != nil && sm.firstErr == nil {
@@ -126,6 +136,17 @@ func (sm *pipelineStateMachine) completeStage(stageID string, err error) {
 		sm.mutex.Unlock()
 		sm.complete(err)
 	}
+}
+
+// completeStageSafely invokes the stage's complete callback, returns the panic as error if it panics.
+func completeStageSafely(stage stagepkg.Stage) (err error) {
+	defer func() {
+		if r := recover(); r != nil {
+			err = fmt.Errorf("complete stage panic: %v", r)
+		}
+	}()
+	stage.Complete()
+	return nil
 }
 
 // complete executes pipeline completed, invokes completed callback.
